@@ -74,8 +74,15 @@ def load_metadata(username="master"):
                 'description': data['description']
             }
 
-    # Immediately check for topological order.
-    check_topological_sort()
+    # Immediately check for topological order. If there is a cycle, forget
+    # the metadata, so that the next call reports the cycle again (instead of
+    # working with import relations that are known to be cyclic).
+    try:
+        check_topological_sort(username)
+    except TheoryException:
+        del theory_cache[username]
+        del item_index[username]
+        raise
 
 def check_topological_sort(username="master"):
     """For the given user, check the import relations have no cycles."""
@@ -147,6 +154,18 @@ def load_theory_cache(filename, username="master"):
     if 'timestamp' in cache and timestamp == cache['timestamp']:
         # No need to update cache
         return cache
+
+    # The file has changed (or is read for the first time). Its list of
+    # imports may have changed as well.
+    new_imports = load_json_data(filename, username)['imports']
+    if new_imports != cache['imports']:
+        old_imports = cache['imports']
+        cache['imports'] = new_imports
+        try:
+            check_topological_sort(username)
+        except TheoryException:
+            cache['imports'] = old_imports
+            raise
 
     # Load all required macros and methods for this file.
     # Make table for this later.
